@@ -2287,7 +2287,14 @@ def rule_symbols(repo):
     return r
 
 
-RULES = [rule_tick_order, rule_compress, rule_header, rule_textwave, rule_gen_isolation, rule_symbols]
+def rule_passgroup_order(repo):
+    """the dump functions only run if the waveform passes are applied BEFORE the pass that assembles sim_tick, in every pass
+    group that offers waveforms.  Shared with C01 (R-C01-agree: pass-group order)."""
+    from rules.c01 import rule_agree
+    return rule_agree(repo)
+
+
+RULES = [rule_tick_order, rule_compress, rule_header, rule_textwave, rule_gen_isolation, rule_symbols, rule_passgroup_order]
 
 
 # ---------------------------------------------------------------------------
